@@ -37,7 +37,8 @@ CHECKS = {
             "bytes and status 0/1, data with/without W, local requests, timer expiry) up to the exhaustive depth, then BFS over canonical "
             "states to the depth bound, is executed on a fresh real HsmsProtocol (active and passive) under the virtual runtime and compared "
             "after every event with the E37 reference session model (state, exactly-one responses with echoed system bytes, Reject reason 4, "
-            "delivery in SELECTED only). The accept race (Select.req / Select.rsp in flight while the connection is being accepted) is "
+            "delivery in SELECTED only; a data message queued behind a Separate.req in one segment is never delivered and answers nothing on the next "
+            "connection). The accept race (Select.req / Select.rsp in flight while the connection is being accepted) is "
             "explored over all schedules with <= K delays at line granularity.",
             "LoopConnection models TcpConnection's thread roles; T7/T8 not modelled; histories run under the default schedule (settle after each event); "
             "bounded depth, state space not closed because periodic timers make remaining-time part of the state.", "DESIGN.md 3/C05"),
@@ -47,7 +48,7 @@ CHECKS = {
             "at 0 and at the 2^32 wrap) is run for every schedule with <= K delays and <= E non-default peer answers; each execution is checked: "
             "distinct system bytes, every caller gets exactly its own reply or None iff none arrived in time, unsolicited primaries delivered "
             "once, serially, in order - including primaries of the peer that reuse the system bytes of this side's finished (answered or "
-            "timed-out) requests.",
+            "timed-out) requests; in one configuration a single write may fail (environment deviation) and only its own caller may see a failure.",
             "A source line of the listed racy region is the atom of interleaving; bounded by K and E (levels completed are in the evidence).",
             "DESIGN.md 3/C06"),
     "C07": ("model_checking", "vrt+hbfs", "explicit-state history BFS on real GEM handlers with trace invariants + delay-bounded schedule exploration of S1F14 vs link loss / T3",
@@ -68,7 +69,8 @@ CHECKS = {
             "reference codec: exactly one reply with the request's system bytes (function+1 or F0 abort), S9F5 with the exact header for "
             "functions without callback, nothing for W=0. Histories in which the handler's own requests were answered or timed out first and the "
             "peer's primary reuses their system bytes, and 1-3 primaries under every schedule with <= 2 (3) delays at line granularity of the "
-            "dispatcher / send path, must give the same answer.",
+            "dispatcher / send path, must give the same answer. Also: register / use / unregister / use / register / use of a callback, and bodies whose n-th leaf is wrapped in "
+            "1500 lists (deeper than the interpreter's recursion limit).",
             "Reply bodies are not constrained beyond S9F5's MHEAD; histories are batches of up to 128 messages per fresh handler.",
             "DESIGN.md 3/C08"),
     "C11": ("model_checking", "vrt+hbfs", "explicit-state history BFS on a real GemEquipmentHandler per configuration + delay-bounded schedule exploration of host request vs operator switch",
@@ -88,14 +90,15 @@ CHECKS = {
             "S6F15 plus a trigger for every CEID of the domain must yield well-formed S6F16/S6F11 with exactly the linked reports in link "
             "order and current values (decoded by the reference codec). Seven configuration requests (dispatcher thread) are raced against "
             "trigger_collection_events([1, 2]) (application thread) under every schedule with <= 2 (3) delays at line granularity of the "
-            "capability: each event at most once, reports = configuration before or after, untouched events exactly once, no thread dies.",
+            "capability: each event at most once, reports = configuration before or after, untouched events exactly once, no thread dies. (S2F33 with two delete-one entries is in the alphabet.)",
             "Requests E5 leaves ambiguous are held to the integrity and transactional clauses only; small id domains (2 reports, 3 variables, 3 events).",
             "DESIGN.md 3/C12"),
-    "C13": ("model_checking", "vrt+hbfs", "explicit-state history BFS with a plain-dict reference model and 49 queries per state",
+    "C13": ("model_checking", "vrt+hbfs", "explicit-state history BFS with a plain-dict reference model and 49 queries per state + delay-bounded schedule exploration of S5F3 vs alarm change",
             "Every history over S2F15 (in-range, boundary, out-of-range, zero limits at either end, multi-constant, unknown, repeated), S5F3, set/clear alarm (S5F2 answered or lost) and value "
             "updates runs on a fresh real equipment handler; after every step S1F3/S1F11/S2F13/S2F29/S5F5/S5F7 with known, unknown, repeated, "
             "numeric and text id lists are sent and each reply is decoded by the reference codec and compared item by item (order, values, "
-            "empty item for unknown ids, alarm set bit); S2F15 must be all-or-nothing and within limits; S5F1 exactly on changes of enabled alarms.",
+            "empty item for unknown ids, alarm set bit); S2F15 must be all-or-nothing and within limits; S5F1 exactly on changes of enabled alarms. S5F3 is raced against set_alarm / clear_alarm "
+            "under every schedule with <= 2 (3) delays at line granularity of the alarm capability.",
             "Clock excluded from value comparison; unknown ALIDs in S5F5 not in the alphabet; canonical state = every plain attribute of the alarm and constant objects.", "DESIGN.md 3/C13"),
     "C15": ("exploration", "enum", "bounded-exhaustive enumeration of items and of token strings against a reference SML recogniser",
             "Round trip Item.from_sml(item.to_sml()) over the C14 leaf families, all 256 single bytes and every string up to length 3 (4 thorough) "
@@ -166,7 +169,8 @@ CHECKS = {
             "(decided by backtracking over prefix lengths), and the call must return a bool. A further answer - one byte accepted while the peer "
             "half-closes - is explored together with one scheduling delay (the receiver thread closes the socket under the sender). "
             "Reconnect scenario: after any outcome of the first send the peer drops the connection and comes back; the next send over the new "
-            "connection of the same object is judged on its own (nothing of the earlier message may appear).",
+            "connection of the same object is judged on its own (nothing of the earlier message may appear). A slow peer with a small receive "
+            "buffer reads only after the library closed the connection: everything reported as sent must still arrive.",
             "Kernel answers are a model; F = 2 quick / 3 thorough deviations per execution.", "DESIGN.md 3/C10"),
     "C17": ("model_checking", "vrt+explore", "stateless delay- and cut-bounded exploration of two real SecsIProtocol endpoints on a virtual line + exhaustive corruption positions",
             "Two real SecsIProtocol objects (host, equipment) joined by an in-memory line; a message of 1-3 blocks is sent, answered by the other "
@@ -176,7 +180,7 @@ CHECKS = {
             "of a block are executed. Oracle: transcript grammar (ENQ, EOT, block, ACK|NAK), success => delivered once with identical header and "
             "body, corrupted => NAK, not delivered, failure reported, following messages still pass, nothing hangs. Also: bodies that are exact "
             "multiples of 244, a second sender thread on the same side (alternating blocks), a NAKed block against the sender's wake-up "
-            "(<= K delays), and the same message sent again after a failed attempt.",
+            "(<= K delays), two senders drawing their system bytes from the protocol's counter, and the same message sent again after a failed attempt.",
             "Only one side transmits at a time (the statement's assumption); length-byte corruption is a recorded known finding (no T1/T2).",
             "DESIGN.md 3/C17"),
     "C20": ("model_checking", "vrt+explore", "stateless delay- and cut-bounded exploration of two real GEM handlers joined by a virtual link",
@@ -187,8 +191,9 @@ CHECKS = {
             "executed for every assignment of <= 1 segment cut; the start-up handshake (and one services phase, thorough: the full script) is "
             "explored under every schedule with <= 1 delay at the runtime's operations and at every line of the waiter registration "
             "(GemHandler.waitfor_communicating / _on_state_communicating). Mid-flight phase: on a paced link either side is disabled while a cut "
-            "message to it is half delivered, re-enabled, and everything must hold again.",
-            "Link connect latency is zero; line-level scheduling points only in the waiter registration (13+ threads); K = 1.", "DESIGN.md 3/C20"),
+            "message to it is half delivered, re-enabled, and everything must hold again. The full script (default schedule) and the handshake "
+            "(<= 1 delay) also run with both handlers on the real TcpClientConnection / TcpServerConnection over the kernel model.",
+            "Link connect latency is zero; line-level scheduling points only in the waiter registration (13+ threads); K = 1; no segment cuts on the TCP variant.", "DESIGN.md 3/C20"),
 }
 
 NOT_YET = "check not built yet in this revision of /verif (see DESIGN.md section 6 build order)"
